@@ -21,6 +21,17 @@ Tie to the source:
     ("callkw")  and  @partial(state, first=True)  ("partial", functools.partial: also one call).
     The last four go through the `return _State(f, first, must_finish)` path of state(); the
     model has them as DStateCall.  A mark must count whichever spelling carries it.
+  * every case carries a HISTORY (spec["history"]; default_history when absent): a list of events
+    {"c": i, "name": tag} = o = C<i>(); setup_tunables(o, "c12_<tag>", "components"), and
+    {"pub": "names"|"descs", "name": tag, "value": [..]} = a plain NetworkTables publisher sets the
+    topic /components/c12_<tag>/state/state_names|state_descriptions.  Every StateMachine class --
+    accepted or malformed -- is attempted at least twice, base classes before subclasses and the
+    other way round; instances, entries and publishers stay alive, so a machine is bound where the
+    lists of another machine (or a publisher's value) already sit.  After each binding the two
+    lists are read through the instance AND through a generic subscriber that has nothing to do
+    with the machine.  The model runs the same events (RV.Defs.Model.run_history: the class table
+    is mutated by instantiation as _build_states does, the topics are a dict); the property
+    (oracle) judges every attempt by its class alone.
 """
 import itertools
 import json
@@ -236,8 +247,9 @@ def render_history(spec):
     hist = history_of(spec)
     if not hist:
         return ""
-    out = ["", "# history (every instance, entry and publisher stays alive; names/descs are then read through",
-           "# the instance and through an independent NetworkTables subscriber)"]
+    out = ["", "# history, carried out once every class statement above has succeeded (every instance, entry and",
+           "# publisher stays alive; state_names / state_descriptions are read after each binding, through the",
+           "# instance and through an independent NetworkTables subscriber)"]
     for n, ev in enumerate(hist):
         if "pub" in ev:
             out.append("p%d = nt.getStringArrayTopic(%r).publish(); p%d.set(%r)"
@@ -1196,14 +1208,13 @@ def shrink(spec, fp):
             if fails(cand):
                 cur, changed = cand, True
                 continue
-        n = len(cur["classes"])
-        if n > 1 and not any((n - 1) in c["bases"] for c in cur["classes"]):
-            cand = json.loads(json.dumps(cur))
-            cand["classes"].pop()
-            cand["history"] = [ev for ev in cand["history"] if ev.get("c") != n - 1]
-            if fails(cand):
+        for j in reversed(range(len(cur["classes"]))):
+            cand = drop_class(cur, j)
+            if cand is not None and fails(cand):
                 cur, changed = cand, True
-                continue
+                break
+        if changed:
+            continue
         for i, c in enumerate(cur["classes"]):
             for j in range(len(c["body"])):
                 cand = json.loads(json.dumps(cur))
@@ -1232,6 +1243,26 @@ def shrink(spec, fp):
     return cur
 
 
+def drop_class(spec, j):
+    """The case without class j (later classes renumbered); None if another class needs it."""
+    if len(spec["classes"]) < 2:
+        return None
+    for c in spec["classes"]:
+        if j in c["bases"] or any(e["m"] == "ref" and e["src"][0] == "class" and e["src"][1] == j for e in c["body"]):
+            return None
+    cand = json.loads(json.dumps(spec))
+    cand["classes"].pop(j)
+    ren = lambda x: x - 1 if x > j else x
+    for c in cand["classes"]:
+        c["bases"] = [b if b == "SM" else ren(b) for b in c["bases"]]
+        for e in c["body"]:
+            if e["m"] == "ref" and e["src"][0] == "class":
+                e["src"][1] = ren(e["src"][1])
+    cand["history"] = [dict(ev, c=ren(ev["c"])) if "c" in ev else ev
+                       for ev in cand.get("history", []) if ev.get("c") != j]
+    return cand
+
+
 def violation(spec, v):
     return {"kind": "input", "what": v[1], "fingerprint": v[0], "case": spec, "source": source_text(spec)}
 
@@ -1240,7 +1271,9 @@ def run(ctx):
     ctx.assumptions.append(
         "C12: CPython class creation (namespace dict order, __set_name__ calls in namespace order, C3 MRO given as "
         "input, name mangling), inspect.signature/inspect.getdoc, dict.update order, hasattr; the <name>_duration "
-        "tunables that __set_name__ adds to a class __dict__ enter the model as given non-state keys")
+        "tunables that __set_name__ adds to a class __dict__ enter the model as given non-state keys; NetworkTables "
+        "(one local instance) as a dict topic -> value: set overwrites, setDefault writes only where there is no "
+        "value, every entry/publisher/subscriber of the instance sees the same value at once")
     ctx.prove()
     sm, mt = impl()
     SM = sm.StateMachine
@@ -1272,10 +1305,21 @@ Lemma impl_reserved_rejected : forall n d, In n gen_reserved -> d_fname d = n ->
   construct gen_reserved d = Err EInvalidStateName.
 Proof. intros n d H E. apply (proj2 (C12_name_reject_iff gen_reserved d)). rewrite E. exact H. Qed.
 Print Assumptions impl_reserved_rejected.
+(* the two attributes instantiation sets on the class are reserved names of today's StateMachine, so
+   histories over the classes of any accepted module are judged class by class *)
+Lemma gen_reserved_has_published : In "state_names" gen_reserved /\\ In "state_descriptions" gen_reserved.
+Proof. split; apply mem_In; vm_compute; reflexivity. Qed.
+Definition impl_history cs ds nt h k mro cname :=
+  C12_history_module gen_reserved cs ds nt h k mro cname
+    (proj1 gen_reserved_has_published) (proj2 gen_reserved_has_published).
+Check (impl_history : forall cs ds nt h k mro cname, define_all gen_reserved cs = Ok ds ->
+  nth_error h k = Some (EInst mro cname) ->
+  nth_error (run_history {| w_dicts := ds; w_nt := nt |} h) k = Some (class_outcome ds mro)).
+Print Assumptions impl_history.
 """
     rc, out = ctx.coq_file("Gen_C12", inst)
     ctx.obligation("regen:name theorem instantiated with today's reserved list (%d names x 3 decorators evaluated)" % len(res),
-                   rc == 0 and "Closed under the global context" in out, out)
+                   rc == 0 and out.count("Closed under the global context") == 2, out)
     # ---- correspondence -----------------------------------------------
     cases = gen_cases(sm, ctx)
     records = []
@@ -1353,7 +1397,10 @@ Print Assumptions impl_reserved_rejected.
                 "(<=3 in thorough) over 5 kinds x 6 names, random hierarchies of 1-4 classes (single/linear/diamond/"
                 "mix-in/plain mix-in) with overriding state-by-state, by plain method/value and back; the decorator state in "
                 "every spelling (factory, bare, state(f, first=..), state(f=f, ..), partial(state, ..)); second bindings "
-                "of existing state objects (same body, derived class, other machine, plain class; own/new name); non-trivial = "
+                "of existing state objects (same body, derived class, other machine, plain class; own/new name); every case with "
+                "an instantiation history (each StateMachine class attempted 2-3 times, base-first / subclass-first / shuffled / "
+                "back to back; bound under 1-3 component names so that lists of other classes and values of plain publishers "
+                "are already on the topics; lists read through the instance and through an independent subscriber); non-trivial = "
                 "distinct definitions that are rejected somewhere or override an inherited attribute",
         "exhaustive": False,
         "exhaustive_parts": ["reserved names (%d) x 3 decorators" % len(res), "16 legal ordered parameter subsets",
